@@ -866,6 +866,7 @@ def _build_geff_metadata(
     img_path: str | None,
     trackmate_metadata: dict[str, ET.Element],
     props_metadata: dict[str, dict[str, Any]],
+    has_track_ids: bool = True,
 ) -> GeffMetadata:
     """Create GEFF metadata from TrackMate XML data.
 
@@ -876,6 +877,9 @@ def _build_geff_metadata(
         trackmate_metadata (dict[str, ET.Element]): The TrackMate metadata extracted
             from the XML file.
         props_metadata (dict[str, Any]): The properties metadata extracted from the XML file.
+        has_track_ids (bool, optional): Whether at least one node carries a "TRACK_ID".
+            The node property is only declared as the lineage property if it exists.
+            Defaults to True.
 
     Returns:
         GeffMetadata: The constructed GEFF metadata object.
@@ -915,7 +919,7 @@ def _build_geff_metadata(
         directed=True,
         node_props_metadata=props_metadata["node_props_metadata"],
         edge_props_metadata=props_metadata["edge_props_metadata"],
-        track_node_props={"lineage": "TRACK_ID"},
+        track_node_props={"lineage": "TRACK_ID"} if has_track_ids else None,
         related_objects=[RelatedObject(type="image", path=img_path)] if img_path else None,
         extra=extra,
     )
@@ -1028,6 +1032,8 @@ def from_trackmate_xml_to_geff(
         img_path=img_path,
         trackmate_metadata=tm_md,
         props_metadata=props_metadata,
+        # Without any track (or when every node was discarded) no node has a "TRACK_ID"
+        has_track_ids=any("TRACK_ID" in data for _, data in graph.nodes(data=True)),
     )
 
     # Create the GEFF :D
